@@ -236,7 +236,8 @@ int main(int argc, char** argv) {
     run.note(fmt("corpus: %lld single-element libraries (+%lld with 8189..8200-vertex polygons, thorough tier) and %lld ordered pairs over a reduced alphabet of %zu elements",
                  (long long)NL, (long long)NH, (long long)NP, gc::reduced().size()));
     // scaling facts the rounding oracle relies on
-    for (int k = 0; k < 4; k++) run.note(fmt("unit %.17g / precision %.17g = %.17g in double arithmetic", gc::lib_units[k][0], gc::lib_units[k][1], gc::lib_units[k][0] / gc::lib_units[k][1]));
+    for (int k = 0; k < gc::lib_count; k++) run.note(fmt("unit %.17g / precision %.17g = %.17g in double arithmetic", gc::lib_units[k][0], gc::lib_units[k][1], gc::lib_units[k][0] / gc::lib_units[k][1]));
+    for (int r = 4; r < 9; r++) run.note(fmt("rotation '%s': r = %.17g, r * (180/pi) = %.17g (the stored ANGLE)", gc::rot_names[r], gc::rot_value(r), gc::rot_value(r) * (180.0 / M_PI)));
     std::vector<Search> plan;
     const int cyc = T ? 3 : 2;
     std::vector<uint64_t> mps = T ? std::vector<uint64_t>{0, 8, 5, 199} : std::vector<uint64_t>{0, 8};
